@@ -10,6 +10,12 @@
 #include "env_pre.h"
 #define psf_log_printf(psf, ...)	verif_log_printf (psf)
 #define strlen(s)					verif_strlen (s)
+#ifdef MODEL_MEMCPY
+/* E1 memcpy model for symbolic lengths: checks that n bytes are readable at src and writable at dst (the C17
+** obligation), then the destination object holds arbitrary bytes except that byte g_byte is copied */
+#define memcpy(d, s, n)				verif_memcpy ((d), (s), (n))
+void * verif_memcpy (void *dst, const void *src, size_t n) ;
+#endif
 size_t verif_strlen (const char *s) ;
 #include "sndfile.c"
 #include "ghost.h"
@@ -38,6 +44,20 @@ size_t verif_strlen (const char *s)
 	__CPROVER_assume (s [k] == 0) ;
 	return k ;
 }
+
+#ifdef MODEL_MEMCPY
+size_t g_byte ;
+void * verif_memcpy (void *dst, const void *src, size_t n)
+{	if (n > 0)
+	{	__CPROVER_assert (__CPROVER_r_ok (src, n), "E1 memcpy: source readable for n bytes") ;
+		__CPROVER_assert (__CPROVER_w_ok (dst, n), "E1 memcpy: destination writable for n bytes") ;
+		__CPROVER_havoc_object (dst) ;
+		if (g_byte < n)
+			((unsigned char *) dst) [g_byte] = ((const unsigned char *) src) [g_byte] ;
+		} ;
+	return dst ;
+}
+#endif
 
 /* ---- callees by contract ---- */
 void verif_log_printf (SF_PRIVATE *psf)
@@ -151,10 +171,18 @@ __CPROVER_requires (data == NULL || datasize <= 0 || __CPROVER_w_ok (data, (size
 __CPROVER_assigns (psf->error; (data != NULL && datasize > 0): __CPROVER_object_from (data))
 ;
 
+#ifdef FIX_CH
+#define CH_OK(c)	((c) == FIX_CH)
+#else
+#define CH_OK(c)	1
+#endif
+#ifndef DATASIZE_MAX
+#define DATASIZE_MAX 69632
+#endif
 #define OWNED(p, n)		((p) == NULL || __CPROVER_is_fresh ((p), (n)))
 
 #define HANDLE_OK	(__CPROVER_is_fresh (sndfile, sizeof (SF_PRIVATE)) \
-	&& PSF->Magick == SNDFILE_MAGICK && 1 <= PSF->sf.channels && PSF->sf.channels <= 1024 && PSF->sf.channels == vin_channels \
+	&& PSF->Magick == SNDFILE_MAGICK && 1 <= PSF->sf.channels && PSF->sf.channels <= 1024 && PSF->sf.channels == vin_channels && CH_OK (PSF->sf.channels) \
 	&& (PSF->file.mode == SFM_READ || PSF->file.mode == SFM_WRITE || PSF->file.mode == SFM_RDWR) \
 	&& (PSF->command == NULL || __CPROVER_obeys_contract (PSF->command, container_command_c)) \
 	&& (PSF->write_header == NULL || __CPROVER_obeys_contract (PSF->write_header, container_write_header_c)) \
@@ -187,10 +215,13 @@ __CPROVER_assigns (psf->error; (data != NULL && datasize > 0): __CPROVER_object_
 
 int sf_command (SNDFILE *sndfile, int command, void *data, int datasize)
 __CPROVER_requires (sndfile == NULL || HANDLE_OK)
-__CPROVER_requires (command == vin_command && datasize == vin_datasize && datasize <= (1 << 20))
+/* datasize bounded by 64 KiB + 4 KiB (largest documented structure is 16 KiB + header); the recursive
+** re-entry of the two forwarding commands is the only call with command != vin_command */
+__CPROVER_requires ((command == vin_command || command == SFC_SET_COMPRESSION_LEVEL || command == SFC_SET_OGG_PAGE_LATENCY) && datasize == vin_datasize && 0 <= datasize && datasize <= DATASIZE_MAX)
 __CPROVER_requires (data == NULL || __CPROVER_is_fresh (data, datasize > 0 ? (size_t) datasize : 0))
 __CPROVER_requires ((data == NULL) == (vin_data_null != 0))
-__CPROVER_assigns (sf_errno, __CPROVER_object_whole (&gd); sndfile != NULL: __CPROVER_object_whole (sndfile); (data != NULL && datasize > 0): __CPROVER_object_whole (data))
+__CPROVER_assigns (sf_errno, g_fmt_size, g_fmt_dst, __CPROVER_object_whole (&gd); sndfile != NULL: __CPROVER_object_whole (sndfile); (data != NULL && datasize > 0): __CPROVER_object_whole (data);
+	(sndfile != NULL && PSF->instrument != NULL): __CPROVER_object_whole (PSF->instrument))
 __CPROVER_frees (sndfile != NULL: PSF->peak_info, PSF->channel_map)
 /* queries are pure (C17): settings, metadata pointers and - except for the CALC family, whose position
 ** restoration is the obligation of psf_calc_* (C18 units) - the positions are what they were */
@@ -221,12 +252,20 @@ void h_command (void)
 	  vin_last_op = b [11] ; vin_data_null = b [12] ; vin_ieee_replace = b [13] ;
 	  vin_rc = a [0] ; vin_wc = a [1] ; vin_frames = a [2] ; vin_dataoffset = a [3] ; }
 	g_hdr_calls = 0 ; g_codec_calls = 0 ; g_seek_calls = 0 ; g_fmt_size = 0 ; g_fmt_dst = NULL ;
+#ifdef CMD_FIXED
+	/* one unit per command id of the public header: the id is concrete (symbolic execution prunes the other
+	** cases), datasize / data / handle state stay symbolic */
+	command = CMD_FIXED ; vin_command = CMD_FIXED ;
+#endif
 #ifdef CMD_GROUP
 	__CPROVER_assume (CMD_GROUP (vin_command)) ;
 #endif
 	int r = sf_command (sndfile, command, data, datasize) ;
+#ifndef CMD_FIXED
 	REACH (vin_command == SFC_GET_LOG_INFO && sndfile != NULL && r > 0, "string command with output") ;
 	REACH (vin_command == SFC_SET_CHANNEL_MAP_INFO && r != 0, "channel map accepted") ;
 	REACH (vin_command == 0x7777 && sndfile != NULL, "undefined command id") ;
+#endif
+	REACH (sndfile != NULL && vin_data_null == 0 && vin_datasize > 0, "handle and data present") ;
 	CANARY () ;
 }
